@@ -39,6 +39,33 @@ Definition run_vm_z (len : bool) (ps : Z) (ms : list mitem) (z : zstate) : jv :=
        (if wf_kernel k && has_total_free k && demanded then JC "Val" [jv_vm (spec_vm k)] else jnone);
        jbool (negb (no_junk ms)); jbool (float_exact k) ].
 
+(* live snapshots of the running kernel: the big files are not printed back; instead the bytes the kernel
+   printer produces for the parsed record are compared, inside Coq, with the real file given line by line *)
+Definition unlines (ls : list bytes) : bytes := concat (map (fun l => l ++ [10]) ls).
+Definition same_as (printed : option bytes) (real : option (list bytes)) : jv :=
+  match real with
+  | None => jnone
+  | Some ls => jbool (match printed with Some b => beqb b (unlines ls) | None => false end)
+  end.
+Definition run_vm_live (len : bool) (ps : Z) (ms : list mitem) (zs : option (list zline))
+                       (real_mi real_zi : option (list bytes)) : jv :=
+  let k := mk_kernel ms zs None ps (0, 0, 1) in
+  let mi := k_meminfo ms in
+  let zi := option_map k_zoneinfo zs in
+  JL [ JB mi; same_as zi real_zi;
+       jv_outcome jv_vm (virtual_memory_gen len ps mi zi);
+       (if wf_kernel k && has_total_free k && float_exact k then JC "Val" [jv_vm (spec_vm k)] else jnone);
+       jbool (negb (no_junk ms)); jbool (float_exact k); same_as (Some mi) real_mi ].
+Definition run_swap_live (len : bool) (ps : Z) (ms : list mitem) (si : Z * Z * Z) (vs : option (list vitem))
+                         (real_mi real_vi : option (list bytes)) : jv :=
+  let k := mk_kernel ms None vs ps si in
+  let mi := k_meminfo ms in
+  let vi := option_map k_vmstat vs in
+  JL [ JB mi; same_as vi real_vi;
+       jv_outcome jv_swap (swap_memory_gen len ps mi si vi);
+       (if wf_kernel k then JC "Val" [jv_swap (spec_swap k)] else jnone);
+       jbool (negb (no_junk ms)); same_as (Some mi) real_mi ].
+
 Definition run_swap (len : bool) (ps : Z) (ms : list mitem) (si : Z * Z * Z) (vs : option (list vitem)) : jv :=
   let k := mk_kernel ms None vs ps si in
   let mi := k_meminfo ms in
